@@ -1,10 +1,1221 @@
-//! C11 — not implemented yet.
-use crate::ctx::Ctx;
+//! C11 — checkpointing is transparent, cleans up after success and survives crashes.
+//!
+//! One request kind (see `lean/IbModel/Driver/D11.lean`):
+//!   CKPT pol=<barrier|every:n|time:s|hybrid:<T|F>:s> max=<none|n> rec=<T|F> first=<none|full|crash:j>
+//!        mut=<none|trunc:o|flip:i:b|set:hex> add=<names|-> pre=<dir|-> mode=<seq|par:n> canon=.. src <rows> ; steps
+//!   => `[<first outcome> own=<0|+> last=<fields|-> || ]<outcome> rec=<log> own=<0|+> last=<fields|-> other=<names|->`
+//!
+//! A job = a generated pipeline (`pipe.rs` generators; reorder-inert, panic-free; barriers, global combines,
+//! joins) × policy × retention × mode × auto_recover, run by the REAL `Runner { checkpoint_config }` in a scratch
+//! directory:
+//!   * `pre`   files placed before anything runs (own-named files with valid / torn / garbage / hostile content,
+//!             look-alike and foreign names);
+//!   * `first` an earlier run of the same pipeline that runs to its end (`full`) or is killed (`crash:j`: step `j`
+//!             is a `map ident` whose closure panics while armed — caught; whatever files the run wrote stay);
+//!   * `mut`/`add` damage to the newest file the earlier run left / extra foreign files;
+//!   * the run proper. When the directory holds anything but what an undamaged run wrote, this last run happens in
+//!     a CHILD process (`ibh child c11 final …`) with a watchdog and an address-space limit.
+//!
+//! Oracles (none goes through the model): the run's result == the result of the same pipeline WITHOUT
+//! checkpointing (and == the plain-vector reference interpreter); after an `Ok` result no file created by this run
+//! or by the earlier run of the same pipeline is left and no new file exists; files that are not checkpoints of
+//! this pipeline id are untouched; the run never panics / aborts / hangs because of what is in the directory.
+//!
+//! Wall-clock stamps never appear in answers: the listing is reduced to "are there own files" + the decoded record
+//! of the newest one (without timestamp and checksum) + the sorted other names.
 
-pub fn run(cx: &mut Ctx) {
-    cx.notes.push("C11: harness not implemented".to_string());
+use crate::ctx::{Ctx, Rng, Tier, guarded, hex};
+use crate::pipe::{self, Coll, Fn_, GenOpts, JoinKind, Mode, Outcome, Prog, RefOut, Shape, Step, V};
+use ironbeam::checkpoint::{
+    CheckpointConfig, CheckpointManager, CheckpointMetadata, CheckpointPolicy, CheckpointState, compute_checksum,
+};
+use ironbeam::{ExecMode, Pipeline, Runner};
+use std::collections::{BTreeMap, BTreeSet};
+use std::io::{BufRead, BufReader, Write};
+use std::path::{Path, PathBuf};
+use std::process::{Command, Stdio};
+use std::sync::atomic::{AtomicBool, Ordering};
+use std::sync::mpsc;
+use std::time::Duration;
+
+/// address-space limit of the child (KiB). Hostile length prefixes are ≥ 2^31, so an unbounded decoder dies.
+const CHILD_AS_LIMIT_KIB: u64 = 1536 * 1024;
+const CHILD_WATCHDOG_S: u64 = 40;
+
+/// the injected closure panics only while this is set (first run of a `crash:j` job)
+static ARMED: AtomicBool = AtomicBool::new(false);
+
+#[derive(Clone, Copy, Debug, PartialEq)]
+enum Pol {
+    Barrier,
+    Every(usize),
+    Time(u64),
+    Hybrid(bool, u64),
+}
+impl Pol {
+    fn enc(&self) -> String {
+        match self {
+            Pol::Barrier => "barrier".into(),
+            Pol::Every(n) => format!("every:{n}"),
+            Pol::Time(s) => format!("time:{s}"),
+            Pol::Hybrid(b, s) => format!("hybrid:{}:{s}", if *b { "T" } else { "F" }),
+        }
+    }
+    fn real(&self) -> CheckpointPolicy {
+        match *self {
+            Pol::Barrier => CheckpointPolicy::AfterEveryBarrier,
+            Pol::Every(n) => CheckpointPolicy::EveryNNodes(n),
+            Pol::Time(s) => CheckpointPolicy::TimeInterval(s),
+            Pol::Hybrid(b, s) => CheckpointPolicy::Hybrid { barriers: b, interval_secs: s },
+        }
+    }
+}
+/// an interval far longer than any run: the time condition is true exactly once (no previous checkpoint)
+const LONG: u64 = 1_000_000;
+const ALL_POLS: &[Pol] = &[
+    Pol::Barrier,
+    Pol::Every(0),
+    Pol::Every(1),
+    Pol::Every(2),
+    Pol::Every(3),
+    Pol::Time(0),
+    Pol::Time(LONG),
+    Pol::Hybrid(true, 0),
+    Pol::Hybrid(true, LONG),
+    Pol::Hybrid(false, 0),
+    Pol::Hybrid(false, LONG),
+];
+const ALL_MAX: &[Option<usize>] = &[None, Some(0), Some(1), Some(3)];
+
+/// is there a checkpoint configuration, and is it enabled
+#[derive(Clone, Copy, Debug, PartialEq)]
+enum En {
+    On,
+    /// `checkpoint_config: Some(CheckpointConfig { enabled: false, .. })`
+    Off,
+    /// `checkpoint_config: None`
+    NoCfg,
 }
 
-pub fn child(_args: &[String]) -> i32 {
-    2
+#[derive(Clone, Debug, PartialEq)]
+enum First {
+    None,
+    Full,
+    Crash(usize),
+}
+#[derive(Clone, Debug, PartialEq)]
+enum Mu {
+    None,
+    Trunc(usize),
+    Flip(usize, u8),
+    Set(Vec<u8>),
+}
+impl Mu {
+    fn enc(&self) -> String {
+        match self {
+            Mu::None => "none".into(),
+            Mu::Trunc(o) => format!("trunc:{o}"),
+            Mu::Flip(i, b) => format!("flip:{i}:{b}"),
+            Mu::Set(b) => format!("set:{}", hex(b)),
+        }
+    }
+    fn apply(&self, c: &[u8]) -> Vec<u8> {
+        match self {
+            Mu::None => c.to_vec(),
+            Mu::Trunc(o) => c[..(*o).min(c.len())].to_vec(),
+            Mu::Flip(i, b) => {
+                let mut v = c.to_vec();
+                if *i < v.len() {
+                    v[*i] ^= 1 << b;
+                }
+                v
+            }
+            Mu::Set(b) => b.clone(),
+        }
+    }
+}
+
+/// content of a pre-placed own-named file
+#[derive(Clone, Debug)]
+enum Content {
+    /// a genuine record of this pipeline id with this stamp (written by the real `save_checkpoint`), then damaged
+    Valid { idx: usize, total: usize, mu: Mu },
+    Raw(Vec<u8>),
+}
+#[derive(Clone, Debug)]
+enum PreFile {
+    Own(u64, Content),
+    /// `{}` in the template is replaced by the pipeline id
+    Named(String, Vec<u8>),
+}
+
+#[derive(Clone, Debug)]
+struct Job {
+    prog: Prog,
+    mode: Mode,
+    pol: Pol,
+    en: En,
+    max: Option<usize>,
+    rec: bool,
+    first: First,
+    mu: Mu,
+    add: Vec<String>,
+    pre: Vec<PreFile>,
+    tag: &'static str,
+}
+impl Job {
+    fn marker(&self) -> Option<usize> {
+        match self.first {
+            First::Crash(j) => Some(j),
+            _ => None,
+        }
+    }
+    /// anything in the directory that an undamaged run of the current code did not write itself?
+    fn needs_child(&self) -> bool {
+        !self.pre.is_empty() || self.mu != Mu::None
+    }
+}
+
+// ───────────────────────────── real pipeline with the crash marker ─────────────────────────────
+
+fn row_kv(r: &(V, V)) -> V {
+    V::pair(r.0.clone(), r.1.clone())
+}
+fn row_kg(r: &(V, Vec<V>)) -> V {
+    V::pair(r.0.clone(), V::L(r.1.clone()))
+}
+fn trip() {
+    if ARMED.load(Ordering::SeqCst) {
+        panic!("injected crash");
+    }
+}
+/// `Step::Map(Fn_::Ident)` with a closure that panics while `ARMED`
+fn apply_marker(c: Coll) -> Coll {
+    Coll::T(match c {
+        Coll::T(x) => x.map(|v: &V| {
+            trip();
+            v.clone()
+        }),
+        Coll::KV(x) => x.map(|r: &(V, V)| {
+            trip();
+            row_kv(r)
+        }),
+        Coll::KG(x) => x.map(|r: &(V, Vec<V>)| {
+            trip();
+            row_kg(r)
+        }),
+        Coll::R(x) => x.map(|r: &Result<V, String>| {
+            trip();
+            pipe::result_v(r)
+        }),
+    })
+}
+
+fn build_marked(p: &Pipeline, prog: &Prog, marker: Option<usize>) -> Coll {
+    // `pipe::build` on the step-less program sets the harness' current-pipeline slot and yields the source
+    let mut c = pipe::build(p, &Prog { shape: prog.shape, src: prog.src.clone(), steps: vec![] });
+    for (j, s) in prog.steps.iter().enumerate() {
+        c = if Some(j) == marker { apply_marker(c) } else { pipe::apply_step(c, s) };
+    }
+    c
+}
+
+fn terminal_id(c: &Coll) -> ironbeam::NodeId {
+    match c {
+        Coll::T(x) => x.node_id(),
+        Coll::KV(x) => x.node_id(),
+        Coll::KG(x) => x.node_id(),
+        Coll::R(x) => x.node_id(),
+    }
+}
+
+fn collect_with(runner: &Runner, p: &Pipeline, c: Coll) -> anyhow::Result<Vec<V>> {
+    Ok(match c {
+        Coll::T(x) => runner.run_collect::<V>(p, x.node_id())?,
+        Coll::KV(x) => runner.run_collect::<(V, V)>(p, x.node_id())?.iter().map(row_kv).collect(),
+        Coll::KG(x) => runner.run_collect::<(V, Vec<V>)>(p, x.node_id())?.iter().map(row_kg).collect(),
+        Coll::R(x) => runner.run_collect::<Result<V, String>>(p, x.node_id())?.iter().map(pipe::result_v).collect(),
+    })
+}
+
+fn exec_mode(m: Mode) -> ExecMode {
+    match m {
+        Mode::Seq => ExecMode::Sequential,
+        Mode::Par(n) => ExecMode::Parallel { threads: None, partitions: Some(n) },
+    }
+}
+
+fn ckpt_config(job: &Job, dir: &Path) -> CheckpointConfig {
+    CheckpointConfig {
+        enabled: job.en == En::On,
+        directory: dir.to_path_buf(),
+        policy: job.pol.real(),
+        auto_recover: job.rec,
+        max_checkpoints: job.max,
+    }
+}
+
+/// one REAL run; `dir = None`: without checkpointing
+fn run_once(job: &Job, dir: Option<&Path>, armed: bool) -> Outcome {
+    let job = job.clone();
+    let dir = dir.map(Path::to_path_buf);
+    ARMED.store(armed, Ordering::SeqCst);
+    let r = pipe::with_watchdog(10, move || {
+        let p = Pipeline::default();
+        let c = build_marked(&p, &job.prog, job.marker());
+        let runner = Runner {
+            mode: exec_mode(job.mode),
+            checkpoint_config: if job.en == En::NoCfg { None } else { dir.as_ref().map(|d| ckpt_config(&job, d)) },
+            ..Default::default()
+        };
+        collect_with(&runner, &p, c)
+    });
+    ARMED.store(false, Ordering::SeqCst);
+    match r {
+        None => Outcome::Hang,
+        Some(Err(msg)) => Outcome::Panic(msg),
+        Some(Ok(Err(e))) => Outcome::Err(format!("{e:#}")),
+        Some(Ok(Ok(rows))) => Outcome::Rows(rows),
+    }
+}
+
+/// chain length after planning (the real planner), and from it this run's pipeline id as the code derives it
+fn pipeline_id(job: &Job) -> Option<(usize, String)> {
+    let job2 = job.clone();
+    let len = guarded(move || {
+        let p = Pipeline::default();
+        let c = build_marked(&p, &job2.prog, job2.marker());
+        ironbeam::planner::build_plan(&p, terminal_id(&c)).map(|pl| pl.chain.len())
+    })
+    .ok()?
+    .ok()?;
+    let key = match job.mode {
+        Mode::Seq => format!("{len}"),
+        Mode::Par(n) => format!("{len}:{n}"),
+    };
+    Some((len, compute_checksum(key.as_bytes())[..16].to_string()))
+}
+
+// ───────────────────────────── directory helpers ─────────────────────────────
+
+fn tmproot() -> tempfile::TempDir {
+    let shm = Path::new("/dev/shm");
+    if shm.is_dir() {
+        if let Ok(t) = tempfile::tempdir_in(shm) {
+            return t;
+        }
+    }
+    tempfile::tempdir().expect("tempdir")
+}
+
+fn listing(dir: &Path) -> BTreeMap<String, Vec<u8>> {
+    let mut m = BTreeMap::new();
+    if let Ok(rd) = std::fs::read_dir(dir) {
+        for e in rd.flatten() {
+            if let Some(n) = e.file_name().to_str() {
+                m.insert(n.to_string(), std::fs::read(e.path()).unwrap_or_default());
+            }
+        }
+    }
+    m
+}
+
+/// harness-side definition of "well-formed checkpoint file of pid": `checkpoint_<pid>_<digits>.bin`, digits a u64
+fn own_stamp(pid: &str, name: &str) -> Option<u64> {
+    let s = name.strip_prefix(&format!("checkpoint_{pid}_"))?.strip_suffix(".bin")?;
+    if s.is_empty() || !s.bytes().all(|b| b.is_ascii_digit()) {
+        return None;
+    }
+    s.parse().ok()
+}
+
+fn newest_own(pid: &str, names: impl Iterator<Item = String>) -> Option<String> {
+    names.filter_map(|n| own_stamp(pid, &n).map(|t| (t, n))).max().map(|x| x.1)
+}
+
+/// canonical class of a `load_checkpoint` error (same classes as the C12 harness)
+fn load_err_class(e: &anyhow::Error) -> &'static str {
+    if e.to_string().contains("checksum mismatch") {
+        return "checksum";
+    }
+    for cause in e.chain() {
+        let c = cause.to_string();
+        if c.starts_with("UnexpectedEnd") {
+            return "eof";
+        } else if c.starts_with("LimitExceeded") {
+            return "limit";
+        } else if c.starts_with("InvalidIntegerType") {
+            return "int-type";
+        } else if c.starts_with("Utf8") {
+            return "utf8";
+        }
+    }
+    if e.to_string().contains("Failed to open") || e.to_string().contains("Failed to read") {
+        return "io";
+    }
+    "other"
+}
+
+fn probe_manager(dir: &Path) -> Option<CheckpointManager> {
+    CheckpointManager::new(CheckpointConfig {
+        enabled: true,
+        directory: dir.to_path_buf(),
+        policy: CheckpointPolicy::AfterEveryBarrier,
+        auto_recover: true,
+        max_checkpoints: None,
+    })
+    .ok()
+}
+
+fn last_fields(s: &CheckpointState) -> String {
+    format!(
+        "idx:{},pc:{},em:{},tn:{},lnt:{},pp:{},pid:{}",
+        s.completed_node_index,
+        s.partition_count,
+        hex(s.exec_mode.as_bytes()),
+        s.metadata.total_nodes,
+        hex(s.metadata.last_node_type.as_bytes()),
+        s.metadata.progress_percent,
+        hex(s.pipeline_id.as_bytes())
+    )
+}
+
+/// `own=<0|+> last=<…>` of a real directory (loads the newest own file with the REAL `load_checkpoint`)
+fn own_str(pid: &str, dir: &Path) -> String {
+    let names = listing(dir);
+    match newest_own(pid, names.keys().cloned()) {
+        None => "own=0 last=-".into(),
+        Some(n) => {
+            let path = dir.join(&n);
+            let r = guarded(|| probe_manager(dir).map(|m| m.load_checkpoint(&path)));
+            match r {
+                Err(_) => "own=+ last=bad:PANIC".into(),
+                Ok(None) => "own=+ last=bad:io".into(),
+                Ok(Some(Ok(s))) => format!("own=+ last={}", last_fields(&s)),
+                Ok(Some(Err(e))) => format!("own=+ last=bad:{}", load_err_class(&e)),
+            }
+        }
+    }
+}
+
+fn other_str(pid: &str, dir: &Path) -> String {
+    let mut v: Vec<Vec<u8>> =
+        listing(dir).keys().filter(|n| own_stamp(pid, n).is_none()).map(|n| n.as_bytes().to_vec()).collect();
+    v.sort();
+    if v.is_empty() { "-".into() } else { v.iter().map(|b| hex(b)).collect::<Vec<_>>().join(",") }
+}
+
+/// what the recovery block of the run is about to see, obtained with the REAL store functions
+fn rec_probe(job: &Job, pid: &str, dir: &Path) -> String {
+    if !job.rec || job.en != En::On {
+        return "off".into();
+    }
+    let r = guarded(|| {
+        let m = probe_manager(dir)?;
+        let latest = m.find_latest_checkpoint(pid).ok()?;
+        Some(latest.map(|p| m.load_checkpoint(&p)))
+    });
+    match r {
+        Err(_) => "died".into(),
+        Ok(None) => "err:io".into(),
+        Ok(Some(None)) => "none".into(),
+        Ok(Some(Some(Ok(s)))) => {
+            format!("ok:{}:{}:{}", s.completed_node_index, s.metadata.total_nodes, s.metadata.progress_percent)
+        }
+        Ok(Some(Some(Err(e)))) => format!("err:{}", load_err_class(&e)),
+    }
+}
+
+// ───────────────────────────── the run proper (in-process or in the child) ─────────────────────────────
+
+/// `<outcome> rec=<log> own=.. last=.. other=..` of the final run of `job` in `dir`
+fn run_final(job: &Job, pid: &str, dir: &Path) -> String {
+    let rec = match job.mu {
+        Mu::Flip(..) => {
+            let _ = rec_probe(job, pid, dir); // still executed: it must not kill the process
+            "*".to_string()
+        }
+        _ => rec_probe(job, pid, dir),
+    };
+    let out = run_once(job, Some(dir), false);
+    let ans = pipe::outcome_answer(&out, job.prog.canon());
+    format!("{ans} rec={rec} {} other={}", own_str(pid, dir), other_str(pid, dir))
+}
+
+// ───────────────────────────── generators (pure: depend on the PRNG only) ─────────────────────────────
+
+fn gen_varint(out: &mut Vec<u8>, v: u64) {
+    if v <= 250 {
+        out.push(v as u8);
+    } else if v <= 0xffff {
+        out.push(251);
+        out.extend_from_slice(&(v as u16).to_le_bytes());
+    } else if v <= 0xffff_ffff {
+        out.push(252);
+        out.extend_from_slice(&(v as u32).to_le_bytes());
+    } else {
+        out.push(253);
+        out.extend_from_slice(&v.to_le_bytes());
+    }
+}
+
+/// hostile / garbage file contents (generator-side only)
+fn gen_garbage(rng: &mut Rng) -> Vec<u8> {
+    let mut out = vec![];
+    match rng.below(10) {
+        0 => {}
+        1 => {
+            // string length prefix 2^63: "capacity overflow" in an unbounded decoder
+            gen_varint(&mut out, 1 << 63);
+        }
+        2 => {
+            gen_varint(&mut out, *rng.pick(&[1u64 << 31, 1 << 33, 1 << 40, 1 << 62, u64::MAX]));
+            out.extend_from_slice(b"abc");
+        }
+        3 => out.push(*rng.pick(&[254u8, 255])),
+        4 => {
+            // a plausible pipeline id, then a hostile checksum length
+            gen_varint(&mut out, 16);
+            out.extend_from_slice(b"0123456789abcdef");
+            out.extend_from_slice(&[3, 7, 1]);
+            gen_varint(&mut out, *rng.pick(&[1u64 << 32, 1 << 63]));
+        }
+        5 => {
+            // just above the running code's decode limit
+            gen_varint(&mut out, (ironbeam::checkpoint::MAX_CHECKPOINT_DECODE_BYTES as u64) + rng.below(3) as u64);
+            out.extend_from_slice(&[b'x'; 8]);
+        }
+        6 => out.extend_from_slice(&[2, 0xff, 0xfe, 0, 0, 0]), // invalid UTF-8 in the id
+        _ => {
+            let n = rng.below(40);
+            for _ in 0..n {
+                out.push(rng.below(256) as u8);
+            }
+        }
+    }
+    out
+}
+
+fn gen_mu(rng: &mut Rng) -> Mu {
+    match rng.below(8) {
+        0 => Mu::None,
+        1 | 2 => Mu::Trunc(rng.below(65)),
+        3 => Mu::Trunc(65 + rng.below(70)),
+        4 | 5 => Mu::Flip(rng.below(125), rng.below(8) as u8),
+        _ => Mu::Set(gen_garbage(rng)),
+    }
+}
+
+/// stamps far away from both the wall clock and the model's scripted clock (≈ 1.7e12 .. 1.9e12 ms)
+const STAMPS: &[u64] = &[0, 5, 1000, 999_999_999_999, 3_000_000_000_000, 1 << 63, u64::MAX];
+
+const LOOKALIKES: &[&str] = &[
+    "checkpoint_{}_.bin",
+    "checkpoint_{}_12x.bin",
+    "checkpoint_{}_5.bin.tmp",
+    "checkpoint_{}x_5.bin",
+    "checkpoint_{}_+5.bin",
+    "CHECKPOINT_{}_5.bin",
+    "checkpoint_{}_18446744073709551616.bin",
+    "checkpoint_{}_5.BIN",
+    "checkpoint_{}_7",
+    "checkpoint_0000000000000000_5.bin",
+    "notes.txt",
+    ".hidden",
+    "checkpoint_",
+];
+
+fn gen_pre(rng: &mut Rng) -> Vec<PreFile> {
+    let mut pre = vec![];
+    let n_own = match rng.below(4) {
+        0 => 0,
+        1 | 2 => 1,
+        _ => 2 + rng.below(2),
+    };
+    let mut stamps: Vec<u64> = vec![];
+    for _ in 0..n_own {
+        let st = *rng.pick(STAMPS);
+        if stamps.contains(&st) {
+            continue;
+        }
+        stamps.push(st);
+        let content = match rng.below(3) {
+            0 => Content::Valid { idx: rng.below(6), total: 1 + rng.below(8), mu: Mu::None },
+            1 => Content::Valid { idx: rng.below(6), total: 1 + rng.below(8), mu: gen_mu(rng) },
+            _ => Content::Raw(gen_garbage(rng)),
+        };
+        pre.push(PreFile::Own(st, content));
+    }
+    let n_other = rng.below(3);
+    let mut used: Vec<&str> = vec![];
+    for _ in 0..n_other {
+        let t = *rng.pick(LOOKALIKES);
+        if used.contains(&t) {
+            continue;
+        }
+        used.push(t);
+        let body = if rng.chance(1, 2) { vec![] } else { gen_garbage(rng) };
+        pre.push(PreFile::Named(t.to_string(), body));
+    }
+    pre
+}
+
+fn gen_add(rng: &mut Rng) -> Vec<String> {
+    let mut v: Vec<String> = vec![];
+    for _ in 0..rng.below(3) {
+        let t = rng.pick(&["zz_foreign.dat", "checkpoint_other.bin", "checkpoint_ffffffffffffffff_9.bin", "a.bin"]).to_string();
+        if !v.contains(&t) {
+            v.push(t);
+        }
+    }
+    v
+}
+
+fn gen_mode(rng: &mut Rng, len: usize) -> Mode {
+    match rng.below(5) {
+        0 | 1 => Mode::Seq,
+        _ => Mode::Par(*rng.pick(&pipe::partition_choices(len))),
+    }
+}
+
+fn shapes_along(prog: &Prog) -> Vec<Shape> {
+    // shape BEFORE each step, plus the final shape
+    let mut v = vec![prog.shape];
+    let mut sh = prog.shape;
+    for s in &prog.steps {
+        sh = pipe::shape_after(sh, s).expect("legal program");
+        v.push(sh);
+    }
+    v
+}
+
+/// insert the crash marker (`map ident`, followed by `topair` when the rows are key-value pairs) before step
+/// `pos`; returns the program and the marker's step index. `None` if the shape there is grouped.
+fn insert_marker(prog: &Prog, pos: usize) -> Option<(Prog, usize)> {
+    let shapes = shapes_along(prog);
+    let mut steps = prog.steps.clone();
+    match shapes[pos] {
+        Shape::T => steps.insert(pos, Step::Map(Fn_::Ident)),
+        Shape::KV => {
+            steps.insert(pos, Step::Topair);
+            steps.insert(pos, Step::Map(Fn_::Ident));
+        }
+        Shape::KG | Shape::R => return None,
+    }
+    Some((Prog { shape: prog.shape, src: prog.src.clone(), steps }, pos))
+}
+
+/// rows that reach step `j` (plain-vector reference)
+fn rows_at(prog: &Prog, j: usize) -> Option<usize> {
+    match pipe::reference(&Prog { shape: prog.shape, src: prog.src.clone(), steps: prog.steps[..j].to_vec() }) {
+        RefOut::Rows(r) => Some(r.len()),
+        _ => None,
+    }
+}
+
+fn usable(prog: &Prog) -> bool {
+    pipe::reorder_inert(prog) && matches!(pipe::reference(prog), RefOut::Rows(_))
+}
+
+fn gen_usable_prog(rng: &mut Rng, o: &GenOpts) -> Prog {
+    loop {
+        let p = pipe::gen_prog(rng, o);
+        if usable(&p) {
+            return p;
+        }
+    }
+}
+
+/// a crash job from `prog`: choose a position where rows arrive (so that the armed closure is really called)
+fn with_crash(rng: &mut Rng, prog: &Prog) -> Option<(Prog, usize)> {
+    let mut cands: Vec<usize> = (0..=prog.steps.len()).collect();
+    while !cands.is_empty() {
+        let pos = cands.remove(rng.below(cands.len()));
+        if let Some((p2, j)) = insert_marker(prog, pos) {
+            if usable(&p2) && rows_at(&p2, j).is_some_and(|n| n > 0) {
+                return Some((p2, j));
+            }
+        }
+    }
+    None
+}
+
+fn kv_rows(pairs: &[(i64, i64)]) -> Vec<V> {
+    pairs.iter().map(|(k, v)| V::pair(V::I(*k), V::I(*v))).collect()
+}
+
+/// fixed programs: stateless only / barrier / global combine / join / join + barrier / nested join (an `Err`)
+fn fixed_progs() -> Vec<Prog> {
+    let right = Prog { shape: Shape::KV, src: kv_rows(&[(1, 100), (3, 300), (1, 101)]), steps: vec![Step::MapValues(Fn_::Add(1))] };
+    let nested = Prog { shape: Shape::KV, src: kv_rows(&[(1, 7)]), steps: vec![Step::Join(JoinKind::Inner, Box::new(right.clone()))] };
+    vec![
+        Prog { shape: Shape::T, src: (1..=6).map(V::I).collect(), steps: vec![Step::Map(Fn_::Add(1)), Step::Filter(pipe::Pred::Even), Step::Map(Fn_::Mul(3))] },
+        Prog { shape: Shape::KV, src: kv_rows(&[(1, 10), (2, 20), (1, 30), (3, 5)]), steps: vec![Step::MapValues(Fn_::Add(1)), Step::Gbk, Step::Gsum, Step::MapValues(Fn_::Mul(2))] },
+        Prog { shape: Shape::T, src: (1..=7).map(V::I).collect(), steps: vec![Step::Map(Fn_::Mul(2)), Step::CombineGlobally(pipe::Comb::Sum, Some(2)), Step::Map(Fn_::Add(5))] },
+        Prog { shape: Shape::KV, src: kv_rows(&[(1, 10), (2, 20), (1, 30)]), steps: vec![Step::Join(JoinKind::Left, Box::new(right.clone())), Step::Unkey] },
+        Prog { shape: Shape::KV, src: kv_rows(&[(1, 10), (2, 20), (1, 30)]), steps: vec![Step::MapValues(Fn_::Add(2)), Step::Join(JoinKind::Full, Box::new(right.clone())), Step::CombineValues(pipe::Comb::Count), Step::MapValues(Fn_::Add(1))] },
+        Prog { shape: Shape::KV, src: kv_rows(&[(1, 10), (2, 20)]), steps: vec![Step::MapValues(Fn_::Add(1)), Step::Gbk, Step::Gsum, Step::Join(JoinKind::Inner, Box::new(nested))] },
+        // group_by_key immediately followed by a lifted combine: the planner fuses them (CombineValues with local_groups)
+        Prog { shape: Shape::KV, src: kv_rows(&[(1, 10), (2, 20), (1, 30), (2, 2), (1, 1)]), steps: vec![Step::Gbk, Step::CombineValuesLifted(pipe::Comb::Sum), Step::MapValues(Fn_::Add(1))] },
+        // grouped source fed straight into a lifted combine (no preceding group_by_key), then a second barrier
+        Prog { shape: Shape::KG, src: vec![V::pair(V::I(1), V::L(vec![V::I(1), V::I(2)])), V::pair(V::I(2), V::L(vec![V::I(5)])), V::pair(V::I(1), V::L(vec![V::I(7)]))], steps: vec![Step::CombineValuesLifted(pipe::Comb::MaxT), Step::Swapkv, Step::Gbk, Step::Glen] },
+    ]
+}
+
+fn base_job(prog: Prog, mode: Mode, pol: Pol, max: Option<usize>, tag: &'static str) -> Job {
+    Job { prog, mode, pol, en: En::On, max, rec: true, first: First::None, mu: Mu::None, add: vec![], pre: vec![], tag }
+}
+
+/// The whole job list of a run — a pure function of (seed, tier), so that the child process rebuilds it.
+fn plan_jobs(rng: &mut Rng, tier: Tier, blocks: &mut Vec<String>) -> Vec<Job> {
+    let budget = |q: usize, t: usize| match tier {
+        Tier::Quick => q,
+        Tier::Thorough => t,
+        Tier::Search => (q * 10).max(t),
+    };
+    let mut jobs: Vec<Job> = vec![];
+    let fixed = fixed_progs();
+
+    // (1) corpus: design witnesses
+    {
+        // DESIGN §8 #7: join + sequential + checkpointing (pinned commit: Err "CoGroup requires subplan execution")
+        for pol in [Pol::Barrier, Pol::Every(1), Pol::Time(0)] {
+            jobs.push(base_job(fixed[3].clone(), Mode::Seq, pol, Some(3), "corpus:join-seq"));
+        }
+        // DESIGN §8 #8: a 2^63 length prefix in the newest own file, auto_recover on
+        let mut hostile = vec![];
+        gen_varint(&mut hostile, 1 << 63);
+        for (prog, mode) in [(fixed[1].clone(), Mode::Seq), (fixed[1].clone(), Mode::Par(2)), (fixed[3].clone(), Mode::Seq)] {
+            let mut j = base_job(prog, mode, Pol::Barrier, Some(3), "corpus:hostile-prefix");
+            j.pre = vec![PreFile::Own(5, Content::Raw(hostile.clone()))];
+            jobs.push(j);
+        }
+        // an `Err` run in parallel mode leaves a "Failed" marker; the next run finds it
+        for first in [First::None, First::Full] {
+            let mut j = base_job(fixed[5].clone(), Mode::Par(2), Pol::Barrier, None, "corpus:failed-marker");
+            j.first = first;
+            jobs.push(j);
+        }
+        // the same `Err` sequentially: the saves made before the failing node stay
+        let mut j = base_job(fixed[5].clone(), Mode::Seq, Pol::Every(1), None, "corpus:err-seq-leaves-files");
+        j.first = First::Full;
+        jobs.push(j);
+        // files of ANOTHER pipeline with the same chain length (same id): found, ignored for the result, cleared
+        let mut j = base_job(fixed[0].clone(), Mode::Seq, Pol::Barrier, None, "corpus:equal-length-pipeline");
+        j.pre = vec![PreFile::Own(1000, Content::Valid { idx: 1, total: 2, mu: Mu::None })];
+        jobs.push(j);
+    }
+
+    // (1b) a configuration that is absent or not enabled: plain engines, the directory is not even looked at
+    for (en, mode) in [(En::Off, Mode::Seq), (En::Off, Mode::Par(2)), (En::NoCfg, Mode::Seq), (En::NoCfg, Mode::Par(3))] {
+        let mut j = base_job(fixed[1].clone(), mode, Pol::Every(1), Some(1), "corpus:not-enabled");
+        j.en = en;
+        j.pre = vec![PreFile::Own(5, Content::Valid { idx: 1, total: 4, mu: Mu::None }), PreFile::Named("notes.txt".into(), vec![1, 2, 3])];
+        jobs.push(j);
+    }
+
+    // (2a) exhaustive: fixed programs × every policy × every retention × {seq, par 2, par 3}, fresh directory
+    {
+        let n0 = jobs.len();
+        for prog in &fixed {
+            for pol in ALL_POLS {
+                for max in ALL_MAX {
+                    for mode in [Mode::Seq, Mode::Par(2), Mode::Par(3)] {
+                        jobs.push(base_job(prog.clone(), mode, *pol, *max, "exh:fresh"));
+                    }
+                }
+            }
+        }
+        blocks.push(format!(
+            "{} fixed programs (stateless, barrier, global combine, join, join+barrier, nested join=Err) x {} policies x retention {{None,0,1,3}} x {{seq,par:2,par:3}} from an empty directory = {} runs",
+            fixed.len(), ALL_POLS.len(), jobs.len() - n0
+        ));
+    }
+    // (2b) exhaustive: crash at every step position of two fixed programs × every policy, sequential, then an
+    //      undamaged second run
+    {
+        let n0 = jobs.len();
+        for prog in [&fixed[1], &fixed[4]] {
+            for pos in 0..=prog.steps.len() {
+                if let Some((p2, j)) = insert_marker(prog, pos) {
+                    if !usable(&p2) || rows_at(&p2, j) == Some(0) {
+                        continue;
+                    }
+                    for pol in ALL_POLS {
+                        for max in [None, Some(0), Some(1)] {
+                            let mut job = base_job(p2.clone(), Mode::Seq, *pol, max, "exh:crash-every-position");
+                            job.first = First::Crash(j);
+                            jobs.push(job);
+                        }
+                    }
+                }
+            }
+        }
+        blocks.push(format!("crash at every step position of 2 fixed programs x {} policies x retention {{None,0,1}}, sequential, then an undamaged recovery run = {} jobs", ALL_POLS.len(), jobs.len() - n0));
+    }
+    // (2c) exhaustive: newest file of a crashed run truncated at EVERY offset 0..=limit, and every bit of the
+    //      first bytes flipped
+    {
+        let n0 = jobs.len();
+        let (p2, j) = insert_marker(&fixed[4], 3).expect("marker");
+        let limit = budget(64, 135);
+        for o in 0..=limit {
+            let mut job = base_job(p2.clone(), Mode::Seq, Pol::Every(1), None, "exh:truncate-every-offset");
+            job.first = First::Crash(j);
+            job.mu = Mu::Trunc(o);
+            jobs.push(job);
+        }
+        for i in 0..budget(12, 125) {
+            for b in 0..8u8 {
+                if tier == Tier::Quick && b % 3 != 0 {
+                    continue;
+                }
+                let mut job = base_job(p2.clone(), Mode::Seq, Pol::Barrier, Some(1), "exh:bit-flips");
+                job.first = First::Crash(j);
+                job.mu = Mu::Flip(i, b);
+                jobs.push(job);
+            }
+        }
+        blocks.push(format!("newest file left by a crashed run truncated at every offset 0..={limit}; bit flips in its first {} bytes = {} jobs (recovery run in the child)", budget(12, 125), jobs.len() - n0));
+    }
+
+    // (3) random
+    let o = GenOpts { max_steps: 7, max_rows: 10, barriers: true, joins: true, globals: true, nonlocal_batches: false };
+    let n = budget(1500, 30000);
+    for _ in 0..n {
+        let prog = gen_usable_prog(rng, &o);
+        let mode = gen_mode(rng, prog.src.len());
+        let pol = *rng.pick(ALL_POLS);
+        let max = *rng.pick(ALL_MAX);
+        let mut job = base_job(prog, mode, pol, max, "rnd");
+        job.rec = !rng.chance(1, 6);
+        if rng.chance(1, 14) {
+            job.en = if rng.chance(1, 2) { En::Off } else { En::NoCfg };
+        }
+        match rng.below(8) {
+            0 | 1 => job.tag = "rnd:fresh",
+            2 | 3 => {
+                job.pre = gen_pre(rng);
+                job.add = gen_add(rng);
+                job.tag = "rnd:dirty";
+            }
+            4 => {
+                job.first = First::Full;
+                job.pre = if rng.chance(1, 3) { gen_pre(rng) } else { vec![] };
+                job.tag = "rnd:after-full-run";
+            }
+            _ => {
+                if let Some((p2, j)) = with_crash(rng, &job.prog.clone()) {
+                    job.prog = p2;
+                    job.first = First::Crash(j);
+                    job.mu = gen_mu(rng);
+                    job.add = gen_add(rng);
+                    if rng.chance(1, 4) {
+                        job.pre = gen_pre(rng);
+                    }
+                    job.tag = "rnd:crash-recover";
+                } else {
+                    job.tag = "rnd:fresh";
+                }
+            }
+        }
+        jobs.push(job);
+    }
+    jobs
+}
+
+// ───────────────────────────── execution ─────────────────────────────
+
+struct Prepared {
+    pid: String,
+    len: usize,
+    /// `pre=` token of the request
+    pre_tok: String,
+    /// first-phase part of the answer (with trailing ` || `), empty if there is no first run
+    first_ans: String,
+    first_out: Option<Outcome>,
+    /// names created by the first run (still present after it)
+    first_created: BTreeSet<String>,
+    /// directory content right before the final run
+    before: BTreeMap<String, Vec<u8>>,
+}
+
+fn place_pre(job: &Job, pid: &str, dir: &Path) -> String {
+    let mut toks = vec![];
+    for f in &job.pre {
+        match f {
+            PreFile::Own(stamp, content) => {
+                let name = format!("checkpoint_{pid}_{stamp}.bin");
+                let bytes = match content {
+                    Content::Raw(b) => b.clone(),
+                    Content::Valid { idx, total, mu } => {
+                        // a genuine record, written by the real save_checkpoint into a side directory
+                        let side = dir.join("..").join(format!("side_{}", std::process::id()));
+                        let _ = std::fs::create_dir_all(&side);
+                        let mut m = probe_manager(&side).expect("side manager");
+                        let ck = compute_checksum(format!("{pid}:{idx}:{stamp}:1").as_bytes());
+                        let st = CheckpointState {
+                            pipeline_id: pid.to_string(),
+                            completed_node_index: *idx,
+                            timestamp: *stamp,
+                            partition_count: 1,
+                            checksum: ck,
+                            exec_mode: "sequential".into(),
+                            metadata: CheckpointMetadata { total_nodes: *total, last_node_type: "Stateless".into(), progress_percent: 50 },
+                        };
+                        let path = m.save_checkpoint(&st).expect("side save");
+                        let b = std::fs::read(&path).expect("side read");
+                        let _ = std::fs::remove_file(&path);
+                        mu.apply(&b)
+                    }
+                };
+                std::fs::write(dir.join(&name), &bytes).expect("write pre file");
+                toks.push(format!("own.{stamp}:{}", hex(&bytes)));
+            }
+            PreFile::Named(t, bytes) => {
+                let name = t.replace("{}", pid);
+                std::fs::write(dir.join(&name), bytes).expect("write pre file");
+                toks.push(format!("{}:{}", hex(name.as_bytes()), hex(bytes)));
+            }
+        }
+    }
+    if toks.is_empty() { "-".into() } else { toks.join(",") }
+}
+
+/// everything before the final run: pre files, the earlier run, the damage
+fn prepare(job: &Job, dir: &Path) -> Option<Prepared> {
+    let (len, pid) = pipeline_id(job)?;
+    std::fs::create_dir_all(dir).ok()?;
+    let pre_tok = place_pre(job, &pid, dir);
+    let before_first = listing(dir);
+    let mut first_ans = String::new();
+    let mut first_out = None;
+    let mut first_created = BTreeSet::new();
+    if job.first != First::None {
+        let out = run_once(job, Some(dir), matches!(job.first, First::Crash(_)));
+        first_ans = format!("{} {} || ", pipe::outcome_answer(&out, job.prog.canon()), own_str(&pid, dir));
+        first_created = listing(dir).keys().filter(|n| !before_first.contains_key(*n)).cloned().collect();
+        first_out = Some(out);
+        // damage the newest own file
+        if job.mu != Mu::None {
+            if let Some(n) = newest_own(&pid, listing(dir).keys().cloned()) {
+                let path = dir.join(&n);
+                let c = std::fs::read(&path).unwrap_or_default();
+                std::fs::write(&path, job.mu.apply(&c)).expect("mutate");
+            }
+        }
+    }
+    for a in &job.add {
+        if !dir.join(a).exists() {
+            std::fs::write(dir.join(a), b"").expect("add foreign");
+        }
+    }
+    Some(Prepared { pid, len, pre_tok, first_ans, first_out, first_created, before: listing(dir) })
+}
+
+fn request(job: &Job, prep: &Prepared) -> String {
+    let first = match job.first {
+        First::None => "none".to_string(),
+        First::Full => "full".to_string(),
+        First::Crash(j) => format!("crash:{j}"),
+    };
+    let add = if job.add.is_empty() { "-".to_string() } else { job.add.iter().map(|a| hex(a.as_bytes())).collect::<Vec<_>>().join(",") };
+    let body = job.prog.request(&job.mode.enc());
+    format!(
+        "CKPT pol={} max={} rec={} first={first} mut={} add={add} pre={} {}",
+        match job.en {
+            En::On => job.pol.enc(),
+            En::Off => format!("off/{}", job.pol.enc()),
+            En::NoCfg => "nocfg".to_string(),
+        },
+        job.max.map_or("none".to_string(), |m| m.to_string()),
+        if job.rec { "T" } else { "F" },
+        if job.first == First::None { "none".to_string() } else { job.mu.enc() },
+        prep.pre_tok,
+        body.strip_prefix("PIPE ").unwrap_or(&body)
+    )
+}
+
+fn first_token(ans: &str) -> &str {
+    ans.split(' ').next().unwrap_or("")
+}
+
+/// result part of a final answer (everything before ` rec=`)
+fn result_part(ans: &str) -> &str {
+    ans.split(" rec=").next().unwrap_or(ans)
+}
+
+fn evaluate(cx: &mut Ctx, job: &Job, prep: &Prepared, dir: &Path, final_ans: &str) {
+    let canon = job.prog.canon();
+    let req = request(job, prep);
+    let full_ans = format!("{}{}", prep.first_ans, final_ans);
+    let nontrivial = job.prog.src.len() >= 2 && !job.prog.steps.is_empty();
+    let idx = cx.case(req, full_ans, nontrivial);
+
+    cx.count(&format!("kind:{}", job.tag));
+    cx.count(&format!("mode:{}", if job.mode == Mode::Seq { "seq" } else { "par" }));
+    cx.count(&format!("policy:{}", job.pol.enc()));
+    cx.count(&format!("retention:{}", job.max.map_or("none".to_string(), |m| m.to_string())));
+    cx.count(&format!("auto_recover:{}", job.rec));
+    cx.count(&format!("config:{:?}", job.en));
+    cx.count(&format!("chain-len:{}", prep.len));
+    if job.prog.has_join() {
+        cx.count("prog:has-join");
+    }
+    if job.prog.has_barrier() {
+        cx.count("prog:has-barrier");
+    }
+    if job.needs_child() {
+        cx.count("final-run:in-child");
+    }
+    match &job.mu {
+        Mu::None => {}
+        Mu::Trunc(_) => cx.count("damage:truncate"),
+        Mu::Flip(..) => cx.count("damage:bit-flip"),
+        Mu::Set(_) => cx.count("damage:overwrite"),
+    }
+    let res = result_part(final_ans).to_string();
+    cx.count(&format!("outcome:{}", first_token(&res)));
+    if let Some(r) = final_ans.split(" rec=").nth(1) {
+        let r = first_token(r);
+        cx.count(&format!("recovery-saw:{}", if r.starts_with("ok:") { "ok" } else { r }));
+    }
+
+    // ── oracle 1: transparency — the same pipeline without checkpointing, and the plain-vector reference
+    let plain = pipe::outcome_answer(&run_once(job, None, false), canon);
+    let reference = pipe::ref_answer(&pipe::reference(&job.prog), canon);
+    if plain != reference {
+        cx.oracle_fail(idx, "plain-run-differs-from-reference", format!("plain={plain} reference={reference}"));
+    }
+    let hostile_dir = job.needs_child() || job.first != First::None;
+    if res != plain {
+        let sig = match first_token(&res) {
+            "PANIC" if hostile_dir => "run-panics-on-leftover-files",
+            "ABORT" => "run-aborts-on-leftover-files(huge allocation)",
+            "HANG" => "run-hangs-with-checkpointing",
+            _ if hostile_dir => "result-after-crash-differs-from-checkpoint-free-result",
+            _ => "checkpointed-result-differs-from-checkpoint-free-result",
+        };
+        cx.oracle_fail(idx, sig, format!("checkpointed={res} checkpoint-free={plain} kind={}", job.tag));
+    }
+    // the earlier run, when it ran to its end, is itself a checkpointed run of the same pipeline
+    if job.first == First::Full {
+        if let Some(out) = &prep.first_out {
+            let a = pipe::outcome_answer(out, canon);
+            if a != plain {
+                cx.oracle_fail(idx, "checkpointed-result-differs-from-checkpoint-free-result", format!("first run: checkpointed={a} checkpoint-free={plain}"));
+            }
+        }
+    }
+    if let (First::Crash(_), Some(out)) = (&job.first, &prep.first_out) {
+        if !matches!(out, Outcome::Panic(_)) {
+            cx.notes.push(format!("case {idx}: the armed closure did not fire (first outcome {})", pipe::outcome_answer(out, canon)));
+            cx.count("crash-did-not-fire");
+        }
+    }
+
+    // ── oracle 2: after success nothing of this pipeline's runs is left, nothing new exists
+    let after = listing(dir);
+    if res.starts_with("OK ") && job.en == En::On {
+        let left: Vec<&String> = after.keys().filter(|n| !prep.before.contains_key(*n) || prep.first_created.contains(*n)).collect();
+        if !left.is_empty() {
+            cx.oracle_fail(idx, "checkpoint-files-left-after-successful-run", format!("left behind: {left:?}"));
+        }
+        // … nor any other well-formed checkpoint file of this pipeline id (e.g. of an earlier, failed run)
+        let own_left: Vec<&String> = after.keys().filter(|n| own_stamp(&prep.pid, n).is_some() && !left.contains(n)).collect();
+        if !own_left.is_empty() {
+            cx.oracle_fail(idx, "checkpoint-files-of-this-pipeline-id-left-after-successful-run", format!("still there: {own_left:?}"));
+        }
+    }
+    if job.en != En::On && after != prep.before {
+        cx.oracle_fail(idx, "run-without-enabled-checkpointing-touches-the-directory", format!("before {:?} after {:?}", prep.before.keys().collect::<Vec<_>>(), after.keys().collect::<Vec<_>>()));
+    }
+    // ── oracle 3: whatever is not a checkpoint of this pipeline id is untouched, however the run ended
+    for (n, c) in &prep.before {
+        if own_stamp(&prep.pid, n).is_none() && after.get(n) != Some(c) {
+            cx.oracle_fail(idx, "foreign-file-touched", format!("{n}: before {} bytes, after {:?}", c.len(), after.get(n).map(Vec::len)));
+        }
+    }
+}
+
+/// run the final phase of the listed jobs in watchdog children; returns answers by job index
+fn run_children(seed: u64, tier: Tier, root: &Path, todo: &BTreeSet<usize>) -> BTreeMap<usize, String> {
+    let mut answers: BTreeMap<usize, String> = BTreeMap::new();
+    let Some(&last) = todo.iter().next_back() else { return answers };
+    let exe = std::env::current_exe().expect("current_exe");
+    let tier_s = match tier {
+        Tier::Quick => "quick",
+        Tier::Thorough => "thorough",
+        Tier::Search => "search",
+    };
+    let mut start = *todo.iter().next().unwrap();
+    let mut spawns = 0;
+    while start <= last && spawns < 200 {
+        spawns += 1;
+        let mut child = Command::new("sh")
+            .arg("-c")
+            .arg(format!("ulimit -v {CHILD_AS_LIMIT_KIB}; exec \"$0\" child c11 final \"$1\" \"$2\" \"$3\" \"$4\""))
+            .arg(&exe)
+            .arg(seed.to_string())
+            .arg(tier_s)
+            .arg(root)
+            .arg(start.to_string())
+            .env("RAYON_NUM_THREADS", "2")
+            .env("MALLOC_ARENA_MAX", "2")
+            .stdout(Stdio::piped())
+            .stderr(Stdio::null())
+            .spawn()
+            .expect("spawn child");
+        let stdout = child.stdout.take().unwrap();
+        let (tx, rx) = mpsc::channel::<String>();
+        let reader = std::thread::spawn(move || {
+            for line in BufReader::new(stdout).lines().map_while(Result::ok) {
+                if tx.send(line).is_err() {
+                    break;
+                }
+            }
+        });
+        let mut current: Option<usize> = None;
+        let mut hung = false;
+        let mut done = false;
+        loop {
+            match rx.recv_timeout(Duration::from_secs(CHILD_WATCHDOG_S)) {
+                Ok(line) => {
+                    let (k, a) = line.split_once(' ').unwrap_or((&line, ""));
+                    if k == "DONE" {
+                        done = true;
+                        continue;
+                    }
+                    let Ok(k) = k.parse::<usize>() else { continue };
+                    if a == "START" {
+                        current = Some(k);
+                    } else {
+                        answers.insert(k, a.to_string());
+                        current = None;
+                    }
+                }
+                Err(mpsc::RecvTimeoutError::Timeout) => {
+                    hung = true;
+                    let _ = child.kill();
+                    break;
+                }
+                Err(mpsc::RecvTimeoutError::Disconnected) => break,
+            }
+        }
+        let status = child.wait().ok();
+        let _ = reader.join();
+        if status.and_then(|s| s.code()) == Some(2) {
+            panic!("ibh child c11: set-up failure (exit 2)");
+        }
+        if done {
+            break;
+        }
+        match current {
+            Some(k) => {
+                answers.insert(k, if hung { "HANG".into() } else { "ABORT".into() });
+                start = k + 1;
+            }
+            None => {
+                // died between jobs: skip to the first unanswered job after the last answered one
+                let next = todo.iter().find(|k| !answers.contains_key(*k) && **k >= start).copied();
+                match next {
+                    Some(k) => {
+                        answers.insert(k, if hung { "HANG".into() } else { "ABORT".into() });
+                        start = k + 1;
+                    }
+                    None => break,
+                }
+            }
+        }
+    }
+    answers
+}
+
+/// child: `ibh child c11 final <seed> <tier> <root> <start>`
+pub fn child(args: &[String]) -> i32 {
+    if args.first().map(String::as_str) != Some("final") {
+        return 2;
+    }
+    let (Some(seed), Some(tier), Some(root), Some(start)) = (args.get(1), args.get(2), args.get(3), args.get(4)) else { return 2 };
+    let Ok(seed) = seed.parse::<u64>() else { return 2 };
+    let Ok(start) = start.parse::<usize>() else { return 2 };
+    let tier = match tier.as_str() {
+        "thorough" => Tier::Thorough,
+        "search" => Tier::Search,
+        _ => Tier::Quick,
+    };
+    let mut cx = Ctx::new("C11", seed, tier);
+    let mut blocks = vec![];
+    let jobs = plan_jobs(&mut cx.rng, tier, &mut blocks);
+    let out = std::io::stdout();
+    for (k, job) in jobs.iter().enumerate().skip(start) {
+        if !job.needs_child() {
+            continue;
+        }
+        let dir = PathBuf::from(root).join(k.to_string());
+        if !dir.is_dir() {
+            continue; // the parent could not prepare this job
+        }
+        let Some((_, pid)) = pipeline_id(job) else { continue };
+        {
+            let mut o = out.lock();
+            let _ = writeln!(o, "{k} START");
+            let _ = o.flush();
+        }
+        let a = run_final(job, &pid, &dir);
+        let mut o = out.lock();
+        let _ = writeln!(o, "{k} {a}");
+        let _ = o.flush();
+    }
+    let mut o = out.lock();
+    let _ = writeln!(o, "DONE");
+    let _ = o.flush();
+    0
+}
+
+pub fn run(cx: &mut Ctx) {
+    let mut blocks = vec![];
+    let jobs = plan_jobs(&mut cx.rng, cx.tier, &mut blocks);
+    cx.exhaustive_blocks.extend(blocks);
+    let root = tmproot();
+
+    // phase A: prepare every job (pre files, earlier run, damage); run the benign final runs in-process
+    let mut preps: Vec<Option<Prepared>> = Vec::with_capacity(jobs.len());
+    let mut inproc: BTreeMap<usize, String> = BTreeMap::new();
+    let mut todo: BTreeSet<usize> = BTreeSet::new();
+    for (k, job) in jobs.iter().enumerate() {
+        let dir = root.path().join(k.to_string());
+        let prep = prepare(job, &dir);
+        if let Some(p) = &prep {
+            if job.needs_child() {
+                todo.insert(k);
+            } else {
+                inproc.insert(k, run_final(job, &p.pid, &dir));
+            }
+        } else {
+            cx.count("job-not-preparable");
+        }
+        preps.push(prep);
+    }
+    // phase B: the final runs that face damaged / hostile / foreign directory content, in children
+    let child_answers = run_children(cx.seed, cx.tier, root.path(), &todo);
+
+    // phase C: cases and oracles, in job order
+    for (k, job) in jobs.iter().enumerate() {
+        let Some(prep) = &preps[k] else { continue };
+        let dir = root.path().join(k.to_string());
+        let ans = if job.needs_child() {
+            child_answers.get(&k).cloned().unwrap_or_else(|| "ABORT".to_string())
+        } else {
+            inproc.get(&k).cloned().unwrap_or_else(|| "ABORT".to_string())
+        };
+        evaluate(cx, job, prep, &dir, &ans);
+        let _ = std::fs::remove_dir_all(&dir);
+    }
+    cx.notes.push(format!(
+        "{} jobs; {} final runs in watchdog children (address-space limit {} MiB)",
+        jobs.len(),
+        todo.len(),
+        CHILD_AS_LIMIT_KIB / 1024
+    ));
 }
